@@ -24,3 +24,14 @@ package retry
 //@ func (c Config) RequestFunc$1(ctx context.Context, fn func(context.Context) error) (r error)
 //@   requires fn != nil
 //@   assert@call fn#1 : true
+
+// wait: the timer is set to exactly the delay asked for; nil (go on, retry) is returned only when the timer has fired - by the
+// outer select (case 1) or, when the context finished at the same moment, by the inner one (case 0); in every other case the
+// answer is the context's error ($sel: the case chosen by the most recent select, -1 = default)
+//@ func wait(ctx context.Context, delay time.Duration) (err error)
+//@   overflow assumed
+//@   unchecked frame,no-panic timers and contexts
+//@   requires ctx != nil
+//@   assert@call NewTimer#1 : $arg0 == delay
+//@   assert@return#1 : $sel == -1
+//@   assert@return#2 : ($sel == 0 || $sel == 1) && $ret0 == nil
